@@ -1,6 +1,7 @@
 package core
 
 import (
+	"os"
 	"fmt"
 	"go/constant"
 	"go/token"
@@ -517,13 +518,33 @@ func (s *Symbolizer) call(fr *frame, c *ssa.Call) *Sym {
 		// a callee is looked through only when its result is expressible: a result assembled through element
 		// stores into a made slice/map or other untracked memory would silently lose the arguments
 		lossy := false
+		given := map[*Sym]bool{}
+		for _, a := range args {
+			given[a] = true
+		}
+		for _, a := range nf.free {
+			given[a] = true
+		}
+		var chk func(z *Sym, d int)
+		chk = func(z *Sym, d int) {
+			if z == nil || given[z] || lossy || d > 40 {
+				return // what the caller passed in is the caller's business
+			}
+			if z.Op == "opaque" || (z.Op == "call" && (z.Name == "makeslice" || z.Name == "makemap")) {
+				lossy = true
+				return
+			}
+			for _, x := range z.Args {
+				chk(x, d+1)
+			}
+		}
 		for _, a := range alts {
-			a.Walk(func(z *Sym) bool {
-				if z.Op == "opaque" || (z.Op == "call" && (z.Name == "makeslice" || z.Name == "makemap")) {
-					lossy = true
-				}
-				return !lossy
-			})
+			chk(a, 0)
+		}
+		if lossy && os.Getenv("SYM_DEBUG") != "" {
+			for _, a := range alts {
+				fmt.Fprintln(os.Stderr, "SYM lossy:", FuncName(f), a.String())
+			}
 		}
 		if !lossy {
 			if len(alts) == 1 {
